@@ -1,4 +1,4 @@
-import QmiModel.Model.PubSub
+import QmiModel.Lemmas.C07Snap
 /-!
 # C07 — published signals reach every subscribed receiver once, in order
 
@@ -58,5 +58,65 @@ theorem prefix_iff_same_context {c c' p s : List Char} (hc : '.' ∉ c) (hc' : '
     exact ⟨p ++ '.' :: s, by simp [fullName]⟩
 
 example : validName "pub_1".toList = true ∧ validName "a.b".toList = false := by decide
+
+
+/-! ## Snapshot semantics: delivered exactly once iff in the snapshot
+
+`State.snaps` records every snapshot `_deliver_local` takes (context, key, publication, receiver set read under the
+manager lock); every queued item carries the index of the snapshot it came from. -/
+
+/-- For every snapshot ever taken, in every reachable state: (1) no receiver holds it twice; (2) whoever holds an item
+of it is a member of the snapshot, in the snapshot's context, and the item is labelled with the snapshot's key
+(publisher context, publisher, signal name) and publication — never another publisher or name; (3) every member either
+has been delivered to, or is still on the list of the thread working through the snapshot. -/
+theorem delivered_iff_in_snapshot {s : State} (h : Reach s) {sid : Nat} {sn : Snap} (hs : s.snaps[sid]? = some sn) :
+    (∀ c r, (((s.ctx c).got r).filter (fun it => it.sid = sid)).length ≤ 1) ∧
+    (∀ c r it, it ∈ (s.ctx c).got r → it.sid = sid → c = sn.c ∧ r ∈ sn.rs ∧ it.k = sn.k ∧ it.p = sn.p) ∧
+    (∀ r ∈ sn.rs, (∃ it ∈ (s.ctx sn.c).got r, it.sid = sid) ∨
+        (∃ th rs, th.ctx = sn.c ∧ headDlv (s.prog th) = some (sid, rs, sn.k, sn.p) ∧ r ∈ rs)) := by
+  have inv := dlvInv_reach h
+  refine ⟨fun c r => filter_length_le_one_of_nodup_map Item.sid sid (inv.got_once c r), ?_, inv.all sid sn hs⟩
+  intro c r it hit he
+  obtain ⟨rs0, h1, h2⟩ := inv.got_snap c r it hit
+  rw [he, hs] at h1
+  simp only [Option.some.injEq] at h1
+  subst h1
+  exact ⟨rfl, h2, rfl, rfl⟩
+
+/-- once the delivering thread is through (no thread works on the snapshot any more): a receiver holds the
+publication — exactly once — iff it was in the snapshot -/
+theorem delivered_iff_in_snapshot_done {s : State} (h : Reach s) {sid : Nat} {sn : Snap} (hs : s.snaps[sid]? = some sn)
+    (hdone : ∀ th x, headDlv (s.prog th) = some x → x.1 ≠ sid) (r : Rcv) :
+    (((s.ctx sn.c).got r).filter (fun it => it.sid = sid)).length = (if r ∈ sn.rs then 1 else 0) := by
+  obtain ⟨h1, h2, h3⟩ := delivered_iff_in_snapshot h hs
+  split
+  · rename_i hr
+    rcases h3 r hr with ⟨it, hi, he⟩ | ⟨th, rs, -, hh, -⟩
+    · have : 0 < (((s.ctx sn.c).got r).filter (fun it => it.sid = sid)).length :=
+        List.length_pos_of_mem (List.mem_filter.2 ⟨hi, by simpa using he⟩)
+      have := h1 sn.c r
+      omega
+    · exact absurd rfl (hdone th _ hh)
+  · rename_i hr
+    rw [List.length_eq_zero_iff, List.filter_eq_nil_iff]
+    intro it hi
+    simp only [decide_eq_true_eq]
+    intro he
+    exact hr (h2 _ _ it hi he).2.1
+
+/-- two threads never deliver from the same snapshot, and a thread delivers from one snapshot at a time -/
+theorem one_thread_per_snapshot {s : State} (h : Reach s) {th th' : Th} {sid : Nat} {rs rs' : List Rcv} {k k' : Key} {p p' : Pub}
+    (h1 : headDlv (s.prog th) = some (sid, rs, k, p)) (h2 : headDlv (s.prog th') = some (sid, rs', k', p')) : th = th' :=
+  (dlvInv_reach h).uniq _ _ _ _ _ _ _ _ _ h1 h2
+
+/-- non-vacuity: a reachable state with one local subscriber (receiver 7), one snapshot containing it and one delivery -/
+def exLocalDelivery : List Act := [
+  .begin 0 0 (.makeObj 0), .micro (.user 0 0) 0 0, .micro (.user 0 0) 0 0, .micro (.user 0 0) 0 0,
+  .begin 0 0 (.subscribe 0 0 0 7), .micro (.user 0 0) 0 0, .micro (.user 0 0) 0 0, .micro (.user 0 0) 0 0, .micro (.user 0 0) 0 0,
+  .begin 0 1 (.publish 0 0), .micro (.user 0 1) 0 0, .micro (.user 0 1) 7 0]
+
+example : ((run State.init exLocalDelivery).map fun s =>
+    (s.snaps.map (fun sn => (sn.c, sn.rs)), ((s.ctx 0).got 7).map (fun it => (it.sid, it.p.tid, it.p.seq)))) =
+    some ([(0, [7])], [(0, 1, 0)]) := by decide
 
 end QmiModel.PubSub
